@@ -50,6 +50,11 @@ def run(chk, tier):
     for fn, unit, callee in (("hwloc_cpukinds_register", "cpukinds.c", "hwloc_internal_cpukinds_rank"),
                              ("hwloc_distances_add_commit", "distances.c", "hwloc__reconnect")):
         oblig.success_needs(chk, P, fn, unit, calls=(callee,))
+    chk.rule("R-COMPACT", "in-place compaction moves elements down: a single-element memcpy(&A[x], &A[y]) between two elements of one array has x <= y on every path (zone abstract interpretation); "
+             "the converse order overwrites the surviving entry with the one just dropped")
+    import zone as _zone
+    nco = _zone.run_compact(chk, P, units=('memattrs.c', 'topology.c', 'cpukinds.c', 'distances.c'))
+    chk.floor("R-COMPACT", "element moves inside one array", nco, 2)
     chk.rule("R-UNLINK", "removing a distances matrix from the topology's doubly linked list updates the predecessor or the head AND the successor or the tail (all discovered removal sites)")
     nu = lists.list_unlink(chk, P, [], "distances.c")
     chk.floor("R-UNLINK", "removal sites of the distances list", nu, 1)
@@ -61,7 +66,8 @@ def run(chk, tier):
     chk.floor("R-WRITER", "stores to hwloc_obj.gp_index", n1, 3)
     n2, seen2 = oblig.writers(chk, P, units, "hwloc_obj", "userdata", UD_OWNERS)
     chk.floor("R-WRITER", "stores to hwloc_obj.userdata", n2, 1)
-    chk.decided += ["restrict: see C08", "allow/restrict leave the topology untouched on EINVAL (no write before any EINVAL exit)",
+    chk.decided += ["compaction of targets/initiators after a refresh copies the surviving entry down, never the dropped one over it",
+                    "restrict: see C08", "allow/restrict leave the topology untouched on EINVAL (no write before any EINVAL exit)",
                     "Group/Misc insertion, cpukinds registration, distances commit re-establish derived state on their success paths",
                     "gp_index of surviving objects never changes and userdata is never altered (who-may-write)", "cpusets/nodesets never mixed",
                     "distances removals keep the list's head/tail and neighbour links consistent; child lists dropped by restrict are reset; a cpukind removed by restrict leaves no stale slot"]
